@@ -294,10 +294,51 @@ class CellRef(V):
         self.n = n
 
 
+_CT = {}
+
+
+def canon_test(text):
+    """Positive normal form of a test: leading ``not`` stripped, ``is not``
+    / ``!=`` / ``not in`` turned into ``is`` / ``==`` / ``in``.  -> (text,
+    flipped).  ``if not c: B else: A`` and ``if c: A else: B`` thus give the
+    same Alt."""
+    if text in _CT:
+        return _CT[text]
+    out = (text, False)
+    try:
+        n = ast.parse(text, mode="eval").body
+        flip = False
+        changed = False
+        while True:
+            if isinstance(n, ast.UnaryOp) and isinstance(n.op, ast.Not):
+                n = n.operand
+                flip = not flip
+                changed = True
+                continue
+            if isinstance(n, ast.Compare) and len(n.ops) == 1 and \
+                    type(n.ops[0]) in (ast.IsNot, ast.NotEq, ast.NotIn):
+                pos = {ast.IsNot: ast.Is, ast.NotEq: ast.Eq,
+                       ast.NotIn: ast.In}[type(n.ops[0])]
+                n = ast.Compare(n.left, [pos()], n.comparators)
+                flip = not flip
+                changed = True
+                continue
+            break
+        if changed:
+            out = (ast.unparse(n), flip)
+    except (SyntaxError, ValueError):
+        pass
+    _CT[text] = out
+    return out
+
+
 class Alt(V):
     fields = ("a", "b")
 
     def __init__(self, test, a, b, lineno=0):
+        test, flip = canon_test(test)
+        if flip:
+            a, b = b, a
         self.test = test
         self.a = a
         self.b = b
